@@ -1042,8 +1042,29 @@ class Evaluator:
                 new = src if not wh else self.lib.np_call(self, "where", [self.eval(wh[0], fr), src, dst], {}, v)
                 self.rebind(v.args[0], new, fr)
                 return None
-        self.eval(st.value, fr)
+        r = self.eval(st.value, fr)
+        self.out_rebind(st.value, r, fr)
         return None
+
+    def out_rebind(self, call, result, fr):
+        """np.f(..., out=name): the function writes its result into `name` and returns it, so afterwards the name holds the result
+        (the in-place event for caller-visible storage is recorded by the library model)."""
+        if not (isinstance(call, ast.Call) and isinstance(result, V)):
+            return
+        fn = ast.unparse(call.func)
+        if not (fn.startswith("np.") or fn.startswith("numpy.")):
+            return
+        for k in call.keywords:
+            if k.arg == "out" and isinstance(k.value, ast.Name) and isinstance(fr.vars.get(k.value.id), V):
+                self.rebind(k.value, result, fr)
+            elif k.arg == "out" and isinstance(k.value, ast.Subscript) and isinstance(k.value.value, ast.Name) and isinstance(fr.vars.get(k.value.value.id), V):
+                # out=a[i] with a basic index is a view of a: the call is the store a[i] = result
+                try:
+                    idx = self.eval_index(k.value.slice, fr)
+                except Exception:  # noqa: BLE001
+                    idx = None
+                if idx is not None and isinstance(idx, V) and is_basic_index(idx):
+                    self.assign(k.value, result, fr)
 
     def st_Import(self, st, fr):
         for a in st.names:
@@ -1101,6 +1122,7 @@ class Evaluator:
 
     def st_Assign(self, st, fr):
         v = self.eval(st.value, fr)
+        self.out_rebind(st.value, v, fr)
         for t in st.targets:
             self.assign(t, v, fr)
         # live views: `name = parent[basic index]` (numpy basic indexing returns a view, writes through it reach the parent)
